@@ -67,6 +67,33 @@ func Plan(prop, tier string) []Mode {
 		return []Mode{seq("seq", pick(6000, 600000), pick(400, 8000))}
 	case "C06":
 		return []Mode{seq("seq", pick(10000, 1000000), pick(700, 15000))}
+	case "C04":
+		ms := []Mode{
+			seq("seq", pick(2000, 200000), pick(250, 5000)),
+			tagged(Mode{Name: "tierb", Build: "plain", Cases: pick(60000, 6000000), Batch: pick(4000, 50000), Par: 16, WatchdogS: 120, HangIs: "violation"}),
+			conc("lin", "plain", pick(3000, 90000), pick(250, 2000), 6, 1, 2, 4, 16),
+			conc("lin", "race", pick(400, 20000), pick(50, 1000), 8, 2, 4, 16),
+			conc("race", "race", pick(1000, 30000), pick(125, 1000), 6, 2, 4, 16, 8),
+		}
+		if !q {
+			ms = append(ms, conc("race", "asan", 3000, 250, 6, 4, 16))
+			ms = append(ms, withGo(conc("lin", "plain", 30000, 1000, 6, 1, 2, 4, 16), "go1.26.8"))
+			ms = append(ms, withGo(conc("race", "race", 10000, 500, 6, 2, 4, 16), "go1.26.8"))
+		}
+		return ms
+	case "C05":
+		ms := []Mode{
+			tagged(Mode{Name: "tierb", Build: "plain", Cases: pick(40000, 2000000), Batch: pick(2500, 25000), Par: 16, WatchdogS: 120, HangIs: "violation"}),
+			conc("lin", "plain", pick(2000, 100000), pick(200, 2000), 6, 1, 2, 4, 16),
+			conc("lin", "race", pick(300, 10000), pick(50, 500), 8, 2, 4, 16),
+			conc("race", "race", pick(1000, 50000), pick(125, 1000), 6, 2, 4, 16, 8),
+		}
+		if !q {
+			ms = append(ms, conc("race", "asan", 3000, 250, 6, 4, 16))
+			ms = append(ms, withGo(conc("lin", "plain", 30000, 1000, 6, 1, 2, 4, 16), "go1.26.8"))
+			ms = append(ms, withGo(conc("race", "race", 10000, 500, 6, 2, 4, 16), "go1.26.8"))
+		}
+		return ms
 	case "C02":
 		return []Mode{seq("seq", pick(600, 40000), pick(40, 500))}
 	}
